@@ -7,6 +7,7 @@
 #
 # @author Davide Brunato <brunato@sissa.it>
 #
+import re
 from collections import deque
 from collections.abc import Callable, Iterable, Iterator
 from functools import cached_property
@@ -66,7 +67,10 @@ def split_path(path: str, namespaces: Optional[NsmapType] = None,
         while condition(path[end]):
             end += 1
 
-    path = path.replace(' ', '').replace('\t', '').replace('./', '')  # path normalization
+    path = path.replace(' ', '').replace('\t', '')
+    # path normalization: drop the self steps './' (but not the '.' of a descendant
+    # step './/name', nor a '.' that ends a name or belongs to a parent step '../')
+    path = re.sub(r'(?<![\w.\-\u00B7])\./(?!/)', '', path)
     chunks: deque[str] = deque([''])  # add an empty element to avoid index errors
     default_namespace = None if not namespaces else namespaces.get('')
 
